@@ -323,6 +323,29 @@ def model_twins(rep, rng, n):
     return len(pairs)
 
 
+def model_determinism(rep, rng, n):
+    """For a fixed configuration the Session model has exactly one behaviour: TLC must generate as many states as
+    it finds distinct ones (no state with two successors, no two runs merging) and exactly one outcome per run."""
+    cfgs = [sr.gen_config(rng, alpha_kinds=("fixed", "single", "topn")) for _ in range(n)]
+    w = tlc.scratch()
+    try:
+        tlc.stage_all(w)
+        try:
+            exps = es.tlc_outcomes(w, cfgs, rep, "MC_Session(determinism)")
+        except tlc.TLCError as e:
+            rep.machinery.append(str(e)[-1500:])
+            return
+    finally:
+        shutil.rmtree(w, ignore_errors=True)
+    runs = [r for r in rep.cov.get("tlc_runs", []) if r["name"] == "MC_Session(determinism)"]
+    branching = [r for r in runs if r["generated"] != r["distinct"]]
+    rep.cov["model_determinism"] = dict(configurations=len([e for e in exps if e is not None]),
+                                        states=sum(r["distinct"] for r in runs), branching_runs=len(branching))
+    if branching:
+        rep.machinery.append("the Session model branches for a fixed configuration (generated %s != distinct %s): "
+                             "specification error" % (branching[0]["generated"], branching[0]["distinct"]))
+
+
 def signals_order_check(rep):
     """Signals.tla models list(set(...) - set(...)) as ANY order (HashOrder = TRUE) or the universe's own order.
     TLC must find the order-dependence in the first and prove its absence in the second."""
@@ -401,6 +424,7 @@ def run(prop, replay_file=None):
     rep.assumptions = ["digest = fills without order identifiers, equity curve, allocation records, failure; compared bit for bit",
                        "fresh interpreters under PYTHONHASHSEED 0, 1, 2, 3 and 'random'"]
     signals_order_check(rep)
+    model_determinism(rep, rng, 80 if t == "quick" else 1500)
     n = 10 if t == "quick" else 160
     if replay_file:
         specs = [json.load(open(replay_file))["spec"]]
